@@ -145,7 +145,7 @@ def random_field(rng: random.Random, used: set[str], versions: list[int], flex_f
                 f["nullableVersions"] = f["versions"]
                 f["default"] = "null"
                 constructs.append("default:null")
-            elif "default" not in f and not array and typ in ("uuid", "bool") + interpret.NUMERIC and rng.random() < 0.6:
+            elif "default" not in f and not array and typ in ("uuid", "bool", "string", "bytes") + interpret.NUMERIC and rng.random() < 0.6:
                 f["ignorable"] = True
                 constructs.append("tagged:ignorable-no-default")
             elif "default" not in f and not array and typ in ("string", "bytes"):
@@ -195,8 +195,10 @@ def _tag(rng: random.Random, f: dict, fv: list[int], flexible_fv: list[int], fle
     f["taggedVersions"] = f"{start}+"
     f["tag"] = tag
     # the field must not exist untagged in a non-flexible version and tagged later with another meaning: keep versions == taggedVersions or wider
-    if rng.random() < 0.6 or fv[0] < start and rng.random() < 0.5:
+    if rng.random() < 0.4:
         f["versions"] = f"{start}+"
+    elif fv[0] < start:
+        constructs.append("taggedVersions:subset-of-versions")
     constructs.append("taggedVersions")
 
 
